@@ -99,8 +99,8 @@ def c14_scenarios(scripts, seed, quick, call, scn):
     # special payloads (attributes, binary, empty) through the push path
     steps = [{"do": "endpoint", "script": {}, "default": [500, 200]},
              call(1, op="CreateTopic", name=T1), call(1, op="CreateSub", name=S1, topic=T1, ack=10, push="$EP"),
-             call(1, op="Publish", topic=T1, msgs=[{"p": "attrs#1"}, {"p": "utf8#1"}, {"p": "bin#1"}, {"p": "empty#1"}]),
-             {"do": "waithttp", "n": 8, "ms": 4000}, {"do": "advance", "ms": 150}]
+             call(1, op="Publish", topic=T1, msgs=[{"p": "attrs#1"}, {"p": "utf8#1"}, {"p": "bin#1"}, {"p": "empty#1"}, {"p": "ws#1"}]),
+             {"do": "waithttp", "n": 10, "ms": 4000}, {"do": "advance", "ms": 150}]
     finish(scn("c14-payloads", steps, seed=seed))
     # no answer within the ack deadline for one message while its sibling is accepted at once: the
     # clock jumps across the deadline while the endpoint holds the open exchange
@@ -195,6 +195,15 @@ def c14_scenarios(scripts, seed, quick, call, scn):
                   {"do": "advance", "ms": 250},
                   call(2, op="Pull", sub=S1, max=10, ri=True)]
         finish(scn("c14-orphan-del-%d" % k, steps, seed=seed + k), push=(k % 3 == 2))
+    # a whole page of messages for an endpoint that keeps every request open, and the subscription
+    # is deleted as soon as the first POST has arrived: pushing stops
+    for k in range(1 if quick else 3):
+        steps = [{"do": "endpoint", "script": {}, "default": ["hold"]},
+                 call(1, op="CreateTopic", name=T1), call(1, op="CreateSub", name=S1, topic=T1, ack=10, push="$EP"),
+                 call(1, op="Publish", topic=T1, msgs=[{"p": "bulk:%d" % (150 + 50 * k)}]),
+                 {"do": "waithttp", "n": 1 + k, "ms": 4000},
+                 call(1, op="DeleteSub", name=S1), {"do": "advance", "ms": 1200}]
+        finish(scn("c14-delete-midround-%d" % k, steps, seed=seed + k), push=False)
     # a push subscription that outlives its topic keeps being pushed what it holds: the endpoint
     # refuses at first, the topic is deleted, then the endpoint accepts
     for k in range(2 if quick else 6):
